@@ -681,7 +681,19 @@ impl LatestBlockFilterHashes {
             );
             return Err(StatusCode::Ignore.with_context(errmsg));
         }
-        let mut end_number = start_number + block_filter_hashes.len() as BlockNumber - 1;
+        // N.B. `start_number` is provided by the remote peer, it could be any value.
+        let mut end_number = if let Some(end_number) =
+            start_number.checked_add(block_filter_hashes.len() as BlockNumber - 1)
+        {
+            end_number
+        } else {
+            let errmsg = format!(
+                "start number ({}) is too large for {} block filter hashes",
+                start_number,
+                block_filter_hashes.len()
+            );
+            return Err(StatusCode::Ignore.with_context(errmsg));
+        };
         if finalized_check_point_number >= end_number {
             let errmsg = format!(
                 "finalized check point ({}) is not less than end number ({})",
@@ -765,7 +777,10 @@ impl LatestBlockFilterHashes {
         }
         // Update block filter hashes.
         let index = start_index_for_new + self.inner[start_index_for_old..].len();
-        self.inner.extend_from_slice(&block_filter_hashes[index..]);
+        // If the peer sends less hashes than it has already sent, there is nothing new.
+        if let Some(new_hashes) = block_filter_hashes.get(index..) {
+            self.inner.extend_from_slice(new_hashes);
+        }
         if end_number < last_proved_number {
             Ok(Some(end_number + 1))
         } else {
